@@ -23,6 +23,10 @@ def body(ctx):
     io_side(ctx, ex, prog, VAL)
     handle_side(ctx, ex, prog)
     api_returns(ctx, prog)
+    # the reply of a synchronous get is assembled from GetOk + header + body frames: it reaches the caller complete as soon as its last
+    # frame is in (also with an empty body, i.e. no body frame at all) - the content obligations of C03 for the Get kind
+    import c03
+    c03.content_sequences(ctx, prog, ex, 1, VAL, ('Get',))
     import c06
     c06.propagate(ctx, prog)    # a reply that arrives in the same read pass as an end of stream or a read error is still routed to its caller
     VAL.run()
